@@ -143,7 +143,17 @@ def observe(cfg, data, cuts=(), end="eof", peer=("10.0.0.9", 4321), max_requests
         except HarnessError:
             raise
         except Exception as e:
-            return obs, ("reject", type(e).__name__, phase), sock
+            # An application may catch what wsgi.input raised and answer normally; the worker then asks the parser for the next request
+            # of the connection.  A stream whose body framing was broken has no "next request": record what the parser does then.
+            after = None
+            try:
+                nxt = next(parser)
+                after = {"method": nxt.method, "uri": nxt.uri}
+            except HarnessError:
+                raise
+            except BaseException:
+                after = None
+            return obs, ("reject", type(e).__name__, phase, after), sock
         o["trailers"] = list(req.trailers)
         if consumer is None:
             o["end"] = consumed_offset(parser, sock)
